@@ -395,7 +395,7 @@ def _add_addgr_to_aces(acls_: LAcl, parser: ConfigParser) -> None:
     :param acls_: Side effect.
     """
     parsed_addgrs = parser.addgrs()
-    addgrs: LAddrGroup = [AddrGroup(**d) for d in parsed_addgrs]
+    addgrs: LAddrGroup = [AddrGroup(version=parser.version, **d) for d in parsed_addgrs]
 
     for acl_o in acls_:
         _aces: LAce = [o for o in acl_o.items if isinstance(o, Ace)]
